@@ -6,8 +6,9 @@ prop, var, logf = sys.argv[1], sys.argv[2], sys.argv[3]
 missed = None
 if "--missed-at-first" in sys.argv:
     missed = sys.argv[sys.argv.index("--missed-at-first") + 1]
-src = f"/tmp/seed/{prop}/_seed/{var}"
-dst = f"/verif/seeded/{prop}-{var}"
+base = os.environ.get("SEED_BASE", "/tmp/seed")
+src = f"{base}/{prop}/_seed/{var}"
+dst = f"/verif/seeded/{prop}-{os.environ.get('SEED_NAME', var)}"
 os.makedirs(dst, exist_ok=True)
 for f in ("patch.diff", "seeded_demo_test.go", "notes.md"):
     shutil.copy(os.path.join(src, f), os.path.join(dst, f))
